@@ -678,6 +678,22 @@ func (st ShortTermRPS) countInUsePics() uint8 {
 	return NumPicTotalCurr
 }
 
+// accumulatedDeltaPocs returns the POC differences to the current picture (DeltaPocS0 and DeltaPocS1 of Section 7.4.8).
+// The values in the struct are the distances between consecutive entries (delta_poc_s0_minus1 + 1).
+func (st ShortTermRPS) accumulatedDeltaPocs() (s0, s1 []int) {
+	dPoc := 0
+	for _, d := range st.DeltaPocS0 {
+		dPoc -= int(d)
+		s0 = append(s0, dPoc)
+	}
+	dPoc = 0
+	for _, d := range st.DeltaPocS1 {
+		dPoc += int(d)
+		s1 = append(s1, dPoc)
+	}
+	return s0, s1
+}
+
 const maxSTRefPics = 16
 
 // parseShortTermRPS - short-term reference pictures with syntax from 7.3.7.
@@ -698,22 +714,77 @@ func parseShortTermRPS(r *bits.EBSPReader, idx, numSTRefPicSets byte, sps *SPS) 
 		}
 		if deltaIdx > idx {
 			r.SetError(fmt.Errorf("deltaIdx > idx in parseShortTermRPS"))
+			return stps
 		}
-		/* deltaRpsSign */ _ = r.Read(1)
-		/* absDeltaRpsMinus1*/ _ = r.ReadExpGolomb()
-		//deltaRps := (1 - (deltaRpsSign << 1)) * (absDeltaRpsMinus1 + 1)
-		refIdx := idx - deltaIdx
-		numDeltaPocs := sps.ShortTermRefPicSets[refIdx].NumDeltaPocs
-		for j := byte(0); j <= numDeltaPocs; j++ {
-			usedByCurrPicFlag := r.ReadFlag()
-			useDeltaFlag := true
-			if !usedByCurrPicFlag {
-				useDeltaFlag = r.ReadFlag()
-			}
-			if usedByCurrPicFlag || useDeltaFlag {
-				stps.NumDeltaPocs++
+		deltaRpsSign := int(r.Read(1))
+		absDeltaRpsMinus1 := int(r.ReadExpGolomb())
+		deltaRps := (1 - (deltaRpsSign << 1)) * (absDeltaRpsMinus1 + 1)
+		ref := sps.ShortTermRefPicSets[idx-deltaIdx]
+		numDeltaPocs := int(ref.NumDeltaPocs)
+		usedByCurrPicFlag := make([]bool, numDeltaPocs+1)
+		useDeltaFlag := make([]bool, numDeltaPocs+1)
+		for j := 0; j <= numDeltaPocs; j++ {
+			usedByCurrPicFlag[j] = r.ReadFlag()
+			useDeltaFlag[j] = true
+			if !usedByCurrPicFlag[j] {
+				useDeltaFlag[j] = r.ReadFlag()
 			}
 		}
+		// Derive the set from the reference set according to (7-61) and (7-62).
+		// refS0 and refS1 are the accumulated (signed) POC differences of the reference set.
+		refS0, refS1 := ref.accumulatedDeltaPocs()
+		nrNeg, nrPos := len(refS0), len(refS1)
+		var s0, s1 []int
+		for j := nrPos - 1; j >= 0; j-- {
+			dPoc := refS1[j] + deltaRps
+			if dPoc < 0 && useDeltaFlag[nrNeg+j] {
+				s0 = append(s0, dPoc)
+				stps.UsedByCurrPicS0 = append(stps.UsedByCurrPicS0, usedByCurrPicFlag[nrNeg+j])
+			}
+		}
+		if deltaRps < 0 && useDeltaFlag[numDeltaPocs] {
+			s0 = append(s0, deltaRps)
+			stps.UsedByCurrPicS0 = append(stps.UsedByCurrPicS0, usedByCurrPicFlag[numDeltaPocs])
+		}
+		for j := 0; j < nrNeg; j++ {
+			dPoc := refS0[j] + deltaRps
+			if dPoc < 0 && useDeltaFlag[j] {
+				s0 = append(s0, dPoc)
+				stps.UsedByCurrPicS0 = append(stps.UsedByCurrPicS0, usedByCurrPicFlag[j])
+			}
+		}
+		for j := nrNeg - 1; j >= 0; j-- {
+			dPoc := refS0[j] + deltaRps
+			if dPoc > 0 && useDeltaFlag[j] {
+				s1 = append(s1, dPoc)
+				stps.UsedByCurrPicS1 = append(stps.UsedByCurrPicS1, usedByCurrPicFlag[j])
+			}
+		}
+		if deltaRps > 0 && useDeltaFlag[numDeltaPocs] {
+			s1 = append(s1, deltaRps)
+			stps.UsedByCurrPicS1 = append(stps.UsedByCurrPicS1, usedByCurrPicFlag[numDeltaPocs])
+		}
+		for j := 0; j < nrPos; j++ {
+			dPoc := refS1[j] + deltaRps
+			if dPoc > 0 && useDeltaFlag[nrNeg+j] {
+				s1 = append(s1, dPoc)
+				stps.UsedByCurrPicS1 = append(stps.UsedByCurrPicS1, usedByCurrPicFlag[nrNeg+j])
+			}
+		}
+		// Store as distance to the previous entry, like the explicitly coded sets
+		prev := 0
+		for _, dPoc := range s0 {
+			stps.DeltaPocS0 = append(stps.DeltaPocS0, uint32(prev-dPoc))
+			prev = dPoc
+		}
+		prev = 0
+		for _, dPoc := range s1 {
+			stps.DeltaPocS1 = append(stps.DeltaPocS1, uint32(dPoc-prev))
+			prev = dPoc
+		}
+		stps.NumNegativePics = byte(len(s0))
+		stps.NumPositivePics = byte(len(s1))
+		stps.NumDeltaPocs = stps.NumNegativePics + stps.NumPositivePics
 	} else {
 		stps.NumNegativePics = byte(r.ReadExpGolomb())
 		stps.NumPositivePics = byte(r.ReadExpGolomb())
